@@ -183,8 +183,8 @@ def Chk.isAny : Chk → Bool
 structure Fix where
   /-- C08-01 (#21): the memo compares predicate identity and the indirect flag too -/
   memoFull : Bool
-  /-- C08-02 (#22): the `Any` short-cut of dictionary/stream entries and array elements is taken only
-      when the `Any` check has no predicate and allows any indirection -/
+  /-- C08-02 (#22, predicate half): the `Any` short-cut of dictionary/stream entries and array elements
+      is taken only when the `Any` check has no predicate -/
   anyAttrs : Bool
   /-- C08-03 (N4): the disjunct index is reset when a disjunction is exhausted -/
   staleIdx : Bool
@@ -203,9 +203,13 @@ structure Fix where
   refChain : Bool
   /-- (#25) the memo is restored when an alternative of a disjunction fails -/
   trail : Bool
+  /-- (#22, indirect half) the `Any` short-cut is not taken either when the check has an indirect
+      requirement (`/Parent 17`); NOT in the tree: the crate's own test
+      test_non_root_page_tree_not_wrong asserts that `/Parent [4 0 R]` is accepted -/
+  anyInd : Bool
 deriving DecidableEq, Repr
 
-def Fix.orig : Fix := ⟨false, false, false, false, false, false, false, false, false, false⟩
+def Fix.orig : Fix := ⟨false, false, false, false, false, false, false, false, false, false, false⟩
 
 /-- the code after the patches delivered in /verif/pending_fixes (C08-01 .. C08-06) -/
 def Fix.tree : Fix :=
@@ -213,7 +217,7 @@ def Fix.tree : Fix :=
                   undefRef := true, compoundPred := true }
 
 /-- every repair switched on (used by the classifier only) -/
-def Fix.all : Fix := ⟨true, true, true, true, true, true, true, true, true, true⟩
+def Fix.all : Fix := ⟨true, true, true, true, true, true, true, true, true, true, true⟩
 
 /-! ### normalize_check -/
 
@@ -324,7 +328,8 @@ def primMatches : Obj → Prim → Bool
 /-- the `(Some(_), _, PDFType::Any) => continue` short-cut -/
 def anyShortcut (fx : Fix) (r : Chk) : Bool :=
   match r with
-  | .any a => if fx.anyAttrs then decide (a = Attr.dflt) else true
+  | .any a =>
+    if fx.anyInd then decide (a = Attr.dflt) else if fx.anyAttrs then a.pred.isNone else true
   | _ => false
 
 inductive EntRes where
